@@ -75,3 +75,27 @@ theorem C04_cover_check_sound (order kept : List Nat) (hk : kept.Pairwise (· < 
 theorem C04_strict_of_distinct (val : Nat → Int) (l : List Nat) (h : l.Pairwise (fun a b => val b ≤ val a))
     (hd : ∀ a ∈ l, ∀ b ∈ l, val a = val b → a = b) (hnd : l.Nodup) : l.Pairwise (fun a b => val b < val a) :=
   P31.strict_of_sorted_distinct val l h hd hnd
+
+/-! ## the mechanisms the code uses to find the adjacent structures -/
+
+/-- **C04 (label mechanism = construction).** The forest produced through the label map (labels of the neighbours →
+roots via `ancestor` → duplicates removed → sorted by idx → three-way case analysis) is the forest of the documented
+construction `run`, step by step: `adjacentL` finds exactly the roots `touches` finds, in the same order. -/
+theorem C04_label_mechanism_refines (E : Env) (order : List Nat) (hnd : order.Nodup) :
+    (runL E order).roots = run E order := P36.runL_roots E order hnd
+theorem C04_adjacent_by_labels (E : Env) (pre : List Nat) (hnd : pre.Nodup) (p : Nat) :
+    adjacentL E (runL E pre) p = sortById ((run E pre).filter (touches E p)) := P36.adjacentL_run E pre hnd p
+
+/-- **C04 (`structures[a].ancestor` is the current root).** During `compute` the path-compressing, cached
+`Structure.ancestor` is asked on every step while new branches are created above current roots and absorbed leaves are
+dropped. For every such history (fresh leaves, branches over parentless live structures, removal of parentless childless
+structures, ancestor queries in any interleaving) every answer is the root by the live links — the cache is never stale,
+because a structure that has a parent keeps it (`P37.illegal_attach_stale_witness`: re-parenting after a query does
+make it stale, which is what `prune` has to repair by resetting caches). -/
+theorem C04_ancestor_is_root (ops : List P37.GOp) (hl : P37.LegalGrow {} ops) :
+    (∀ pr ∈ P37.runGrow {} ops, pr.1 = pr.2 ∧ ∃ r, pr.1 = some r) ∧
+    (∀ t ∈ P37.traceGrow {} ops, t.2.1 = t.2.2 ∧
+      ∃ r ro, t.2.1 = some r ∧ r ∈ t.1.alive ∧ t.1.get r = some ro ∧ ro.parent = none) :=
+  P37.grow_history_sound ops hl
+
+example : P37.LegalGrow {} P37.exHist := by decide
